@@ -258,6 +258,15 @@ class C08:
         call = None
         if item is not None and item[0] == "sub" and item[2] == ("const", 2) and item[1][0] == "call" and item[1][1] == EC:
             call = item[1]
+        if call is None and item is not None and item[0] == "attr" and item[1][0] == "call" and item[1][1] == EC:
+            # evaluate_clip hands back a record: the collected element is its field that holds the ClipEvaluation
+            recs = [r.term for r in ec.returns if r.term[0] == "call" and r.term[1][0] == "global" and r.term[1][2] == "class"]
+            fld = [callkw(r_).get(item[2]) for r_ in recs]
+            if recs and len(recs) == len(ec.returns) and all(v_ is not None and v_[0] == "call" and v_[1][0] == "global" and v_[1][1].endswith(":ClipEvaluation") for v_ in fld):
+                call = item[1]
+            else:
+                ctx.undec("R08.1", site, f"the collected element is the field `{item[2]}` of evaluate_clip(...)'s result, which is not read as the clip evaluation")
+                return
         if call is None:
             ctx.bad("R08.1", self.file, evname, "evaluated_clips.append(evaluated_clip)",
                     f"not every evaluated clip is collected unconditionally (the i-th collected element is {show(item)[:80] if item else 'filtered / undetermined'})",
